@@ -1266,7 +1266,9 @@ class Node:
                 string, i.e. "aaa://<fqdn>:<port>;transport=<transport>".
                 The URI must contain at least the scheme and FQDN;
                 the port and transport will default to 3868 and "TCP" if not
-                included
+                included. Diameter identities are case-insensitive; the FQDN
+                is stored in lower case, both as the key of `Node.peers` and
+                as `Peer.node_name`
             realm_name: Peer realm name. If not given, will be set to the
                 same realm as the node has been configured with
             ip_addresses: A list of IP addresses for the peer. If not given,
